@@ -10,6 +10,8 @@ oracles:        run() raises RecursiveModelStructure; nothing executed; acyclic 
                 tuples holding the referenced commands) are rejected like loops through the built-in parameter types
 """
 import itertools
+import os
+import sys
 
 from .. import common, prog, progrun, graphs
 from ..progrun import Scenario, Name
@@ -169,6 +171,7 @@ def run(ctx):
     api_histories(ctx)
     long_cycles(ctx)
     plugin_parameter_cycles(ctx)
+    copied_programs(ctx)
     return ctx.finish(
         rule="scenarios = (digraph on 1..3 commands enumerated completely [thorough: 4 sampled 1500], random digraphs on 4-6 commands with optional "
              "acyclic tails/components; edges realised as direct, list, nested-list or mixed references; 2-6 textual orders each); "
@@ -642,6 +645,57 @@ def plugin_parameter_cycles(ctx):
                 ctx.fail("acyclic model with references through a plug-in parameter (%s) rejected: %s" % (kind, res["ops"]), desc)
             elif sorted(started) != sorted(names):
                 ctx.fail("acyclic model with references through a plug-in parameter (%s): executed %r, expected every command once" % (kind, started), desc)
+
+
+def copied_programs(ctx):
+    """a cyclic model is rejected by whichever Program object runs it: the program it was loaded into, a shallow copy of it (copy.copy: the copy shares the
+    command objects), a deep copy, a program rebuilt from another program's command objects' arguments; acyclic twins run in each of them.  Cycles through
+    direct parameters (Copy, AMinusB, CvtToFuzzy), through lists (Sum) and through both; the cyclic part first, last or in the middle of the file"""
+    import copy
+    from mpilot.program import Program
+    from mpilot.exceptions import RecursiveModelStructure, MPilotError
+    tmp = common.tmpdir("mpv_c14c_")
+    with open(os.path.join(tmp, "t.csv"), "w") as f:
+        f.write("a,b\n1,2\n3,4\n")
+    R = 'Ra = EEMSRead(InFileName = "t.csv", InFieldName = a)'
+    rings = {
+        "direct": ["X = Copy(InFieldName = Y)", "Y = Copy(InFieldName = X)"],
+        "direct3": ["X = AMinusB(A = Ra, B = Z)", "Y = Copy(InFieldName = X)", "Z = Copy(InFieldName = Y)"],
+        "self": ["X = AMinusB(A = X, B = Ra)"],
+        "list": ["X = Sum(InFieldNames = [Ra, Y])", "Y = Sum(InFieldNames = [X])"],
+        "mixed": ["X = Copy(InFieldName = Y)", "Y = Sum(InFieldNames = [Ra, X])"],
+        "tail": ["X = Copy(InFieldName = Y)", "Y = Copy(InFieldName = X)", "T = Sum(InFieldNames = [X, Ra])", "U = Copy(InFieldName = T)"],
+    }
+    acyclic = ["X = Copy(InFieldName = Ra)", "Y = Sum(InFieldNames = [X, Ra])", "Z = AMinusB(A = Y, B = X)"]
+    old_limit = sys.getrecursionlimit()
+    try:
+        sys.setrecursionlimit(400)
+        for name, lines in sorted(rings.items()) + [("acyclic", acyclic)]:
+            for place in ("first", "last"):
+                src = "\n".join(([R] + lines) if place == "last" else (lines + [R])) + "\n"
+                for how in ("original", "copy.copy", "copy.deepcopy", "copy of a copy"):
+                    p = Program.from_source(src, working_dir=tmp)
+                    q = {"original": lambda: p, "copy.copy": lambda: copy.copy(p), "copy.deepcopy": lambda: copy.deepcopy(p), "copy of a copy": lambda: copy.copy(copy.copy(p))}[how]()
+                    ctx.case("copied %s %s %s" % (name, place, how), sample=None)
+                    ctx.count("copied_program_runs")
+                    desc = {"source": src, "run_by": how}
+                    try:
+                        q.run()
+                        out = "ok"
+                    except RecursiveModelStructure:
+                        out = "recursive"
+                    except MPilotError as e:
+                        out = "mp:%s" % type(e).__name__
+                    except BaseException as e:      # noqa
+                        out = "raw:%s" % type(e).__name__
+                    if name == "acyclic":
+                        if out != "ok":
+                            ctx.fail("an acyclic model run by %s of its program ends with %s" % (how, out), desc)
+                    elif out != "recursive":
+                        ctx.fail("a model whose references form a loop (%s), run by %s of the program it was loaded into, %s - not the recursive-model error" % (
+                            name, how, "returned normally" if out == "ok" else "ended with " + out), desc)
+    finally:
+        sys.setrecursionlimit(old_limit)
 
 
 def replay(path):
